@@ -38,10 +38,22 @@ def gen_cases(rng, n_put, n_get):
         thr = 4096 // xs
         n = rng.choice([thr - 1, thr, thr + 1, thr + 2, thr + 9, 2 * thr, 1, 2, 7, 64])
         n = max(n, 2) if 'varn' in api else max(n, 1)
-        lay = rng.choice(['c', 'c', 'x', 'x', 'v'])
+        lay = rng.choice(['c', 'x', 'x', 'v', 'k', 'k', 'k', 'K', 'q'])
         if lay == 'v':
             bl = rng.choice([d for d in (1, 2, 3, 4, 5, 8) if n % d == 0])
             lay = 'v%d_%d' % (bl, bl + rng.below(3))
+        elif lay in ('k', 'K', 'q'):
+            # derived types WITHOUT gaps: contiguous(k), contiguous(k1, contiguous(k2)), contiguous of vector(2, bl, bl)
+            if lay == 'k':
+                unit = rng.choice([2, 4, 16]); lay = 'k%d' % unit
+            elif lay == 'K':
+                k1, k2 = rng.choice([(2, 2), (4, 2), (2, 8), (4, 4)]); unit = k1 * k2; lay = 'K%d_%d' % (k1, k2)
+            else:
+                bl = rng.choice([1, 2, 4]); unit = 2 * bl; lay = 'q%d' % bl
+            m = thr // unit
+            n = unit * rng.choice([m, m + 1, m + 1, m + 3, 2 * m, 1, 2, 3]) if m > 0 else unit * rng.choice([1, 2, 3])
+            if 'varn' in api:
+                n = max(n, 2 * unit)
         hint = rng.choice(['auto', 'auto', 'enable', 'disable'])
         ex = rng.choice(['wait', 'wait_all', 'cancel', 'close'])
         cases.append(dict(kind='P', id=cid, fmt=fmt, xt=xt, memk=memk, api=api, n=n, layout=lay, hint=hint, exit=ex))
@@ -70,6 +82,20 @@ def case_line(c):
 def vec(lay):
     m = re.match(r'[vw](\d+)_(\d+)', lay)
     return (int(m.group(1)), int(m.group(2))) if m else None
+
+
+def btype_of(c):
+    """(bufcount, primitive elements per buftype unit, decoded as contiguous?) as ncmpii_dtype_decode reports it"""
+    lay = c['layout']; n = c['n']
+    if lay[0] == 'k':
+        k = int(lay[1:]); return n // k, k, True
+    if lay[0] == 'K':
+        k1, k2 = (int(x) for x in lay[1:].split('_')); return n // (k1 * k2), k1 * k2, True
+    if lay[0] == 'q':
+        return 1, n, False          # a vector combiner inside: iscontig_of_ptypes = 0 although there are no gaps
+    if vec(lay):
+        return 1, n, False
+    return n, 1, True
 
 
 def positions(c):
@@ -182,15 +208,20 @@ def model_predictions(cases, wd, max_swap_images=60):
     for c in cases:
         if c['kind'] == 'P':
             nb = need_swap(c['xt'], c['memk']); nc = need_convert(c['fmt'], c['xt'], c['memk'])
-            contig = 'false' if vec(c['layout']) else 'true'
+            cnt, per, ctg = btype_of(c)
+            contig = 'true' if ctg else 'false'
             nbytes = c['n'] * ELSIZE[c['xt']]
             flag = 'put_swaps_user_buf %s %s %s %s false %s %d' % (API_COQ[c['api']], 'true' if nc else 'false',
                                                                    'true' if nb else 'false', contig, HINT[c['hint']], nbytes)
             body = '[]'
-            if c['memk'] == c['xt'] and not vec(c['layout']) and nimg < max_swap_images and c['n'] <= 1100:
+            if c['memk'] == c['xt'] and ctg and nimg < max_swap_images and c['n'] <= 1100:
                 body = zbytes(put_body(c)); nimg += 1
-            src.append('Eval vm_compute in (%d, (if %s then 1 else 0) :: (if %s then in_swapn %s %d %d else [])).'
-                       % (c['id'], flag, flag, body, c['n'], ELSIZE[c['xt']]))
+            # result: flag :: restored? :: in-flight image   (restored = the caller's buffer after the blocking call /
+            # the exit, Abuf.put_blocking_buffer over bnelems = bufcount * elements per buftype, equals the original)
+            bt = '(mkbt %d %d %s)' % (cnt, per, contig)
+            src.append('Eval vm_compute in (%d, (if %s then 1 else 0) :: (if bytes_eqb (put_blocking_buffer %s %s %s %d) %s then 1 else 0) '
+                       ':: (if %s then user_buf_in_flight true %s (bt_bnelems %s) %d else [])).'
+                       % (c['id'], flag, flag, bt, body, ELSIZE[c['xt']], body, flag, body, bt, ELSIZE[c['xt']]))
         else:
             es = ELSIZE[c['memk']]
             pos, ext, bt, im = positions(c)
@@ -230,10 +261,14 @@ def compare(c, t, m):
             if flag and not trivially_same:
                 if post == 'same':
                     out.append(('corr_C13_swap_decision', 'model: buffer byte-swapped in place while in flight, library: untouched: ' + case_line(c)))
-                elif len(m) > 1 and bytes(m[1:]) != bytes.fromhex(post):
+                elif len(m) > 2 and bytes(m[2:]) != bytes.fromhex(post):
                     out.append(('corr_C13_in_swapn', 'in-flight image differs from Abuf.in_swapn: ' + case_line(c)))
             if not flag and post != 'same':
                 out.append(('corr_C13_swap_decision', 'model: buffer untouched while in flight, library changed it: ' + case_line(c)))
+        # after the blocking return / the exit: the model (both swaps over bnelems) gives back the caller's bytes
+        if m[1] == 1 and not c['api'].startswith('bput') and t[6] != 'same':
+            out.append(('corr_C13_exit_image', 'caller\'s buffer after the %s differs from Abuf.put_blocking_buffer (swap-back over bnelems): %s'
+                        % ('exit' if nb else 'blocking return', case_line(c))))
     else:
         if int(t[2]) != 0:
             return out
